@@ -848,7 +848,7 @@ func (s *State) extendFunctionEnv(
 		// By definition function parameters are local copies, deref argument values:
 		pval := object.Value(args[paramIdx])
 		needVariable := true
-		if !s.NoReg && pval.Type() == object.INTEGER {
+		if !s.NoReg && pval.Type() == object.INTEGER && !object.Constant(param.Value().Literal()) {
 			// We will release all these registers just by returning/dropping the env.
 			_, nbody, ok := setupRegister(env, param.Value().Literal(), pval.(object.Integer).Value, newBody)
 			if ok {
@@ -948,6 +948,22 @@ func ModifyRegister(register *object.Register, in ast.Node) (ast.Node, bool) {
 			// not handled currently (x--)
 			return nil, false
 		}
+	case *ast.PrefixExpression:
+		// ++x / --x on the register itself isn't handled either (the operand was already replaced, children first).
+		if r, ok := in.Right.(*object.Register); ok && r == register && (in.Type() == token.INCR || in.Type() == token.DECR) {
+			return nil, false
+		}
+	case *ast.InfixExpression:
+		// The body assigns the name (possibly a non integer, or as the variable of a nested loop): use a real variable.
+		if r, ok := in.Left.(*object.Register); ok && r == register && (in.Type() == token.ASSIGN || in.Type() == token.DEFINE) {
+			return nil, false
+		}
+	case *ast.Builtin:
+		if in.Type() == token.DEL && len(in.Parameters) == 1 {
+			if r, ok := in.Parameters[0].(*object.Register); ok && r == register {
+				return nil, false
+			}
+		}
 	case *ast.FunctionLiteral:
 		// skip lambda/functions in functions.
 		return nil, false
@@ -996,7 +1012,7 @@ func (s *State) evalForInteger(fe *ast.ForExpression, start *int64, end int64, n
 	var newBody ast.Node
 	var register object.Register
 	newBody = fe.Body
-	if name != "" && !s.NoReg {
+	if name != "" && !s.NoReg && !object.Constant(name) { // constants go through the checks of real variables.
 		var ok bool
 		env := s.env
 		register, newBody, ok = setupRegister(env, name, int64(startValue), fe.Body)
@@ -1009,7 +1025,9 @@ func (s *State) evalForInteger(fe *ast.ForExpression, start *int64, end int64, n
 	}
 	for i := startValue; i < endValue; i++ {
 		if ptr == nil && name != "" {
-			s.env.Set(name, object.Integer{Value: int64(i)})
+			if oerr := s.env.Set(name, object.Integer{Value: int64(i)}); oerr.Type() == object.ERROR {
+				return oerr // e.g. the loop variable is a constant
+			}
 		}
 		if ptr != nil {
 			*ptr = int64(i)
